@@ -104,10 +104,12 @@ CLAIMED = {
     text="Coq theorems over an executable model of configfile-glue.c's condition evaluation and cache (check_cond with parent/else-chain dependencies, "
          "result and local_result, clear_node, reset_item, reset, operators incl. host[:port] and CIDR): with valid attributes and a coherent cache the "
          "evaluator answers exactly what the configuration language defines and keeps the cache coherent, for every tree, every attribute assignment and "
-         "every evaluation order; last contributing block wins; tied by differential correspondence on random trees x operation sequences (rewrites + "
+         "every evaluation order; last contributing block wins; after an attribute rewrite followed by reset_item the cache is coherent with the new "
+         "attributes (clear_node reaches children and else-chains; a block is cached only after its parent, an invariant every evaluation keeps); "
+         "tied by differential correspondence on random trees x operation sequences (rewrites + "
          "reset_item, full resets, partially valid attributes) and judged against a reference of the language",
-    note="PARTIAL proof: coherence after reset_item (reset_item_sufficient) is checked by correspondence + language reference only (that is where the "
-         "genuine defect fixed in 32b61fb was found); regexes restricted to anchored literals (PCRE2 in the harness); per-module patch loops and "
+    note="the reset theorem assumes children/prev/next links that agree with the parent links (wf2), a property of the parser's trees that is exercised "
+         "through the correspondence only; regexes restricted to anchored literals (PCRE2 in the harness); per-module patch loops and "
          "h2_init_stream inheritance not modelled; trusted: Coq kernel, extraction, harness glue, python reference",
     technique="Coq proof over executable model + differential correspondence (extracted OCaml vs C harness) + language reference monitor",
     design="5/C14"),
@@ -149,7 +151,8 @@ CLAIMED = {
          "memory and descriptor growth)",
     note="PARTIAL by nature: memory safety of C is not provable here without a C semantics (VST/CompCert absent); only the listed size computations are "
          "theorems, everything else is sanitizer-observed search (not a proof); UBSan's nonnull-attribute check is off (memcpy(dst, NULL, 0) in "
-         "ls-hpack); the sanitizer build of the whole server runs in the thorough tier only; trusted: Coq kernel, tools/c2v_safe.py, ASan/UBSan",
+         "ls-hpack); the sanitizer build of the whole server runs in the thorough tier only (there also under C01/C02/C05/C07/C10's scenarios: the "
+         "ls-hpack and h2.c undefined-behaviour fixes came from those); trusted: Coq kernel, tools/c2v_safe.py, ASan/UBSan",
     technique="Coq proof over models with translator-extracted capacities/guards (regenerated each run) + sanitizer-instrumented differential search (harnesses and real server)",
     design="5/C12"),
  "C13": dict(
@@ -198,7 +201,9 @@ CLAIMED = {
          "against the real lighttpd: after every request of state-aware random and trap sequences (Destination spelled with dot segments, "
          "percent-encoding, absolute URI; onto itself; into its own subtree; repeated COPY over hard links) the directory on disk must equal the "
          "specification's tree and the status class must match; PUT atomicity under client abort and SIGKILL with a concurrent reader",
-    note="PARTIAL: PROPFIND/PROPPATCH/LOCK, If-* preconditions, partial PUT and write errors are outside the specification; the kill points of the real "
+    note="PARTIAL: PROPFIND/PROPPATCH/LOCK, If-* preconditions, partial PUT and write errors are outside the specification; a Destination that is an "
+         "ancestor of the source is not generated (the RFC's delete-then-copy cannot be carried out); 3 known findings about existing destinations of "
+         "the other kind (file onto collection, collection onto file, collection onto collection), each reproduced by a fixed sequence; the kill points of the real "
          "PUT are sampled (random byte), not enumerated per system call; 207 Multi-Status counts as an error report; trusted: Coq kernel, extraction, "
          "lib/srv.py, python directory walker",
     technique="Coq proof over executable specification + differential correspondence (extracted OCaml vs real lighttpd/mod_webdav on a scratch directory) + kill/abort trials",
